@@ -1,15 +1,35 @@
 #!/usr/bin/env python3
-"""Regenerates coq/theories/Gen/LspShape.v from <repo>/internal/lsp/server.go.
+# props: C15 C17
+"""Regenerates coq/theories/Gen/LspShape.v from <repo>/internal/lsp/server.go, <repo>/internal/lsp/cache/*.go and
+the other non-test files of <repo>/internal/lsp.
 
-Purely syntactic extract for C17: per top-level function of server.go, the risky accesses that the guard
-skeletons of Model/LspGuards.v are about, in source order:
-  1 = a slice indexed with the constant 0            (`xs[0]`)
-  2 = a use of the loaded-config pointer             (`*cfg`, `cfg.Field`, `l.getLoadedConfig().Field`)
-  3 = dereference of an optional request/option ptr  (`*params.X`, `*l.clientInitializationOptions.X`)
-  4 = `.CodeDescription.Href` (optional pointer in a diagnostic)
-  5 = a send on one of the server's job channels     (`l.<chan> <- ...`; the channel network of C17)
-Props of C17 compare this list with the sites the skeletons were written from
-(Model.LspGuards.modelled_sites): a new or removed site breaks the obligation until the model is revisited."""
+Purely syntactic extract.
+
+A. (C17) per top-level function of server.go, the risky accesses that the guard skeletons of Model/LspGuards.v are
+   about, in source order:
+     1 = a slice indexed with the constant 0            (`xs[0]`)
+     2 = a use of the loaded-config pointer             (`*cfg`, `cfg.Field`, `l.getLoadedConfig().Field`)
+     3 = dereference of an optional request/option ptr  (`*params.X`, `*l.clientInitializationOptions.X`)
+     4 = `.CodeDescription.Href` (optional pointer in a diagnostic)
+     5 = a send on one of the server's job channels     (`l.<chan> <- ...`; the channel network of C17)
+   Props of C17 compare this list with the sites the skeletons were written from
+   (Model.LspGuards.modelled_sites): a new or removed site breaks the obligation until the model is revisited.
+
+B. (C15, C17) the shape of the language server's cache (internal/lsp/cache), the state shared by the request handler,
+   the file-lint worker and the workspace-lint worker.  The job-atomic model of C15 and its theorem
+   `set_for_rules_merge` ASSUME that every cache operation on one map entry is atomic and that values handed in/out
+   are never written through afterwards.  Extracted, per function of the package in source order:
+     cache_funcs    every function / method (so that a new one is noticed: the cache-level test drives every one);
+     cache_fields   the concurrent maps of the Cache struct;
+     cache_sites    every access of a concurrent map: (function, field, map method, text of the key argument);
+                    a use of a map field that is not a direct method call is listed with method "<escapes>";
+     cache_calls    calls of other functions of the package (compositions of atomic operations);
+     cache_inplace  every write through a slice or map: `x[:0]`-style reslicing, element assignment `x[i] = v`,
+                    `delete(x, k)`, `clear(x)`, in-place sorts, `copy(x, ...)`, with the written variable and whether
+                    that variable is a fresh local of the function (`x := make(...)`, `x := T{...}`, `var x T`);
+     lsp_cache_rmw  for every function of internal/lsp/*.go: pairs Get<X> ... Set<X> (or Set<X>ForRules) of the same
+                    cache item called in one function, i.e. read-modify-write sequences made OUTSIDE the cache.
+   Model.LspCache lists what the model of the cache was written from; Props compare (vm_compute)."""
 import os, re, sys
 
 HERE = os.path.dirname(os.path.abspath(__file__))
@@ -27,35 +47,216 @@ PATTERNS = [
 FUNC_RE = re.compile(r'^func (?:\([^)]*\)\s*)?([A-Za-z0-9_]+)')
 
 
-def sites(src):
+def strip_line(code):
+    code = re.sub(r'"(?:[^"\\]|\\.)*"', '""', code)      # string literals first: they may contain /* or //
+    code = re.sub(r'`[^`]*`', '``', code)
+    code = re.sub(r"'(?:[^'\\]|\\.)'", "' '", code)
+    return code
+
+
+def code_lines(src):
+    """(line without comments and string contents) per source line"""
     out = []
-    fn = None
     in_block_comment = False
     for line in src.split('\n'):
-        m = FUNC_RE.match(line)
-        if m:
-            fn = m.group(1)
         code = line
         if in_block_comment:
             if '*/' in code:
                 code = code.split('*/', 1)[1]
                 in_block_comment = False
             else:
+                out.append('')
                 continue
-        code = re.sub(r'"(?:[^"\\]|\\.)*"', '""', code)      # string literals first: they may contain /* or //
-        code = re.sub(r'`[^`]*`', '``', code)
-        code = re.sub(r"'(?:[^'\\]|\\.)'", "' '", code)
+        code = strip_line(code)
         code = re.sub(r'/\*.*?\*/', '', code)
         if '/*' in code:
             code = code.split('/*', 1)[0]
             in_block_comment = True
         code = code.split('//', 1)[0]
+        out.append(code)
+    return out
+
+
+def sites(src):
+    out = []
+    fn = None
+    for raw, code in zip(src.split('\n'), code_lines(src)):
+        m = FUNC_RE.match(raw)
+        if m:
+            fn = m.group(1)
         if fn is None:
             continue
         for kind, rx in PATTERNS:
             for _ in rx.finditer(code):
                 out.append((fn, kind))
     return out
+
+
+# ---------------------------------------------------------------------------------- B: the cache
+def functions(src):
+    """[(name, receiver variable or '', parameter text, body with comments/strings stripped and white space collapsed)]
+    for every top-level function of a gofmt-formatted file (a body ends at the next line that is exactly `}`)"""
+    raw = src.split('\n')
+    code = code_lines(src)
+    out = []
+    i = 0
+    while i < len(raw):
+        m = re.match(r'^func (?:\(\s*(\w+)?\s*\*?\s*[\w.\[\], ]+\)\s*)?([A-Za-z0-9_]+)', raw[i])
+        if not m:
+            i += 1
+            continue
+        j = i
+        while j < len(raw) and raw[j] != '}' and not (j == i and raw[j].rstrip().endswith('}') and raw[j].count('{') == raw[j].count('}') and '{' in raw[j]):
+            j += 1
+        text = ' '.join(code[i:j + 1])
+        text = re.sub(r'\s+', ' ', text)
+        text = re.sub(r'\s*\.\s*', '.', text)           # method chains broken over lines
+        text = re.sub(r'\s*\(\s*', '(', text)
+        out.append((m.group(2), m.group(1) or '', text))
+        i = j + 1
+    return out
+
+
+def first_arg(text, pos):
+    """text of the first argument of the call whose '(' is at pos"""
+    depth, k = 0, pos
+    start = pos + 1
+    while k < len(text):
+        c = text[k]
+        if c in '([{':
+            depth += 1
+        elif c in ')]}':
+            depth -= 1
+            if depth == 0:
+                return text[start:k].strip()
+        elif c == ',' and depth == 1:
+            return text[start:k].strip()
+        k += 1
+    return text[start:].strip()
+
+
+def struct_fields(src, name):
+    """names of the fields of struct `name` whose type mentions concurrent.Map"""
+    code = code_lines(src)
+    out, inside = [], False
+    for line in code:
+        if re.match(r'^type %s struct\b' % name, line):
+            inside = True
+            continue
+        if inside:
+            if line.startswith('}'):
+                break
+            m = re.match(r'^\s*(\w+)\s+(\*?\s*concurrent\.Map\b.*)$', line)
+            if m:
+                out.append(m.group(1))
+    return out
+
+
+INPLACE = [
+    ('reslice0', re.compile(r'\b([A-Za-z_]\w*)\[\s*:\s*0\s*\]')),
+    ('elemwrite', re.compile(r'(?<![\w.\])])([A-Za-z_]\w*)\[[^\[\]]*(?:\[[^\[\]]*\][^\[\]]*)*\]\s*(?:=(?!=)|\+=|-=|\+\+|--)')),
+    ('delete', re.compile(r'(?<![\w.])delete\(([A-Za-z_]\w*)')),
+    ('clear', re.compile(r'(?<![\w.])clear\(([A-Za-z_]\w*)')),
+    ('copy', re.compile(r'(?<![\w.])copy\(([A-Za-z_]\w*)')),
+    ('sort', re.compile(r'\b(?:sort\.(?:Slice|SliceStable|Strings|Ints|Sort|Stable)|slices\.(?:Sort|SortFunc|SortStableFunc|Reverse))\(([A-Za-z_]\w*)')),
+    ('appendprefix', re.compile(r'\bappend\(([A-Za-z_]\w*)\[\s*:[^\]]*\]')),
+]
+
+
+def fresh_locals(text):
+    """variables that are created empty in the function: x := make(..), x := T{..} / []T{..} / map[..]..{..}, var x T"""
+    out = set(re.findall(r'\b([A-Za-z_]\w*) := make\(', text))
+    out |= set(re.findall(r'\b([A-Za-z_]\w*) := (?:\[\]|map\[|&?[A-Za-z_][\w.]*\{)', text))
+    out |= set(re.findall(r'\bvar ([A-Za-z_]\w*) ', text))
+    return out
+
+
+def cache_shape(repo):
+    d = os.path.join(repo, 'internal', 'lsp', 'cache')
+    try:
+        files = sorted(f for f in os.listdir(d) if f.endswith('.go') and not f.endswith('_test.go'))
+    except OSError:
+        files = []
+    funcs, fields, acc, calls, inplace = [], [], [], [], []
+    srcs = []
+    for f in files:
+        try:
+            srcs.append(open(os.path.join(d, f), errors='replace').read())
+        except OSError:
+            pass
+    for src in srcs:
+        fields += struct_fields(src, 'Cache')
+    allf = []
+    for src in srcs:
+        allf += functions(src)
+    names = [n for n, _, _ in allf]
+    for name, recv, text in allf:
+        funcs.append(name)
+        body = text[text.find('{'):] if '{' in text else ''
+        ev = []
+        # accesses of the concurrent maps: <anything>.<field>.<Method>(key
+        for fld in fields:
+            for m in re.finditer(r'\b(\w+)\.%s\b(\.(\w+)\()?' % re.escape(fld), body):
+                if m.group(2):
+                    key = first_arg(body, m.end() - 1)
+                    ev.append((m.start(), 'site', (fld, m.group(3), key)))
+                else:
+                    ev.append((m.start(), 'site', (fld, '<escapes>', '')))
+        # calls of functions of the package
+        for m in re.finditer(r'(?<![\w])(?:(\w+)\.)?([A-Za-z_]\w*)\(', body):
+            callee = m.group(2)
+            if callee in names and m.group(1) not in fields:
+                # x.Name( where x is not one of the concurrent maps (whose methods Delete, ... share names with methods of
+                # the Cache), or a bare Name(
+                ev.append((m.start(), 'call', callee))
+        loc = fresh_locals(body)
+        for kind, rx in INPLACE:
+            for m in rx.finditer(body):
+                v = m.group(1)
+                ev.append((m.start(), 'inplace', (kind, v, v in loc)))
+        ev.sort(key=lambda e: e[0])
+        for _, k, x in ev:
+            if k == 'site':
+                acc.append((name,) + x)
+            elif k == 'call':
+                calls.append((name, x))
+            else:
+                inplace.append((name,) + x)
+    return bool(srcs), funcs, fields, acc, calls, inplace
+
+
+def lsp_rmw(repo):
+    """(file, function, item) for every function of internal/lsp/*.go (non-test) in which the cache getter Get<item> is
+    called and, later in the text of the same function, a setter of the same item (Set<item>, Set<item>ForRules)"""
+    d = os.path.join(repo, 'internal', 'lsp')
+    out = []
+    try:
+        files = sorted(f for f in os.listdir(d) if f.endswith('.go') and not f.endswith('_test.go'))
+    except OSError:
+        files = []
+    for f in files:
+        try:
+            src = open(os.path.join(d, f), errors='replace').read()
+        except OSError:
+            continue
+        for name, _, text in functions(src):
+            gets = [(m.start(), m.group(1)) for m in re.finditer(r'\b[cC]ache\.Get(\w+)\(', text)]
+            sets = [(m.start(), m.group(1)) for m in re.finditer(r'\b[cC]ache\.Set(\w+)\(', text)]
+            seen = set()
+            for gp, item in gets:
+                for sp, sitem in sets:
+                    if sp > gp and (sitem == item or sitem == item + 'ForRules') and item not in seen:
+                        seen.add(item)
+                        out.append((f, name, item))
+    return out
+
+
+def coq_str_list(xs):
+    return '[' + '; '.join('lit "%s"' % x for x in xs) + ']'
+
+
+def q(s):
+    return s.replace('"', "'")
 
 
 def main():
@@ -66,7 +267,8 @@ def main():
     except OSError:
         src, found = '', False
     ss = sites(src)
-    v = ['(* GENERATED by tools/gen/lspshape.py from internal/lsp/server.go of the working tree; do not edit. *)',
+    v = ['(* GENERATED by tools/gen/lspshape.py from internal/lsp/server.go, internal/lsp/cache/*.go and internal/lsp/*.go of the',
+         '   working tree; do not edit. *)',
          'From Coq Require Import List NArith String.', 'From Regal Require Import Base.StrLit.', 'Import ListNotations.',
          'Open Scope N_scope.', '',
          'Definition lsp_server_found : bool := %s.' % vlib.cbool(found),
@@ -74,6 +276,27 @@ def main():
          'Definition lsp_sites : list (str * N) := [']
     v.append(';\n'.join('  (lit "%s", %d)' % (fn, k) for fn, k in ss))
     v.append('].')
+    cfound, funcs, fields, acc, calls, inplace = cache_shape(vlib.REPO)
+    rmw = lsp_rmw(vlib.REPO)
+    v += ['', '(* ---- internal/lsp/cache ---- *)',
+          'Definition cache_found : bool := %s.' % vlib.cbool(cfound),
+          '(* concurrent maps of the Cache struct, in source order *)',
+          'Definition cache_fields : list str := %s.' % coq_str_list(fields),
+          '(* every function / method of the package, in source order *)',
+          'Definition cache_funcs : list str := [',
+          ';\n'.join('  lit "%s"' % f for f in funcs), '].',
+          '(* (function, (map field, method of concurrent.Map, text of the key argument)), in source order *)',
+          'Definition cache_sites : list (str * (str * str * str)) := [',
+          ';\n'.join('  (lit "%s", (lit "%s", lit "%s", lit "%s"))' % (fn, fld, meth, q(key)) for fn, fld, meth, key in acc), '].',
+          '(* (function, function of the package it calls), in source order *)',
+          'Definition cache_calls : list (str * str) := [',
+          ';\n'.join('  (lit "%s", lit "%s")' % (a, b) for a, b in calls), '].',
+          '(* writes through a slice or map: (function, (kind, variable written, variable is a fresh local)) *)',
+          'Definition cache_inplace : list (str * (str * str * bool)) := [',
+          ';\n'.join('  (lit "%s", (lit "%s", lit "%s", %s))' % (fn, k, var, vlib.cbool(loc)) for fn, k, var, loc in inplace), '].',
+          '(* internal/lsp/*.go: (file, function, cache item X) where Get<X> is followed by Set<X>[ForRules] in one function *)',
+          'Definition lsp_cache_rmw : list (str * str * str) := [',
+          ';\n'.join('  (lit "%s", lit "%s", lit "%s")' % x for x in rmw), '].']
     vlib.write_if_changed(os.path.join(vlib.COQ, 'theories', 'Gen', 'LspShape.v'), '\n'.join(v) + '\n')
 
 
